@@ -22,6 +22,9 @@
 (*    k = "union"   X | Y | ...  (Optional[X] is union(X, none)); the       *)
 (*        members are already flattened and de-duplicated (the harness      *)
 (*        reads the term back from the real typing object)                  *)
+(*    k = "ann"     typing.Annotated[X, metadata]: args = <<X>>             *)
+(*    k = "tvar" | "tvarb" | "tvarc"   a TypeVar: unconstrained (no args),   *)
+(*        with bound = args[1], with the constraints args                    *)
 (*    k = "~none"   no annotation (never passed to Compat)                  *)
 (*                                                                         *)
 (* This module is pure (no variables); C19_Types.tla evaluates it over a    *)
@@ -72,6 +75,14 @@ SubOrigin(a, b) == a = b \/ <<a, b>> \in SubClassPairs
 (*  R7 two parameterised generics need equal arity and pairwise compatible  *)
 (*     arguments ("list[int] -> list[str] is NOT compatible").              *)
 (*                                                                         *)
+(*  R8 Annotated[X, ...] is X on either side: the metadata is not part of   *)
+(*     the type (changelog: "type compatibility engine supporting generics,  *)
+(*     Annotated, and forward refs"; _handle_generic_types: "stripping       *)
+(*     metadata and comparing primary types")                                *)
+(*  R9 a TypeVar as the REQUIRED type accepts anything when it is            *)
+(*     unconstrained, what SOME constraint accepts when it has constraints,  *)
+(*     what its bound accepts when it is bounded (_is_typevar_compatible)    *)
+(*                                                                         *)
 (* Combinations the documentation does not settle, aligned with the code   *)
 (* (never a reason for an alarm):                                           *)
 (*  S1 Any on the INCOMING side and a required type other than Any: the     *)
@@ -81,11 +92,19 @@ SubOrigin(a, b) == a = b \/ <<a, b>> \in SubClassPairs
 (*  S2 an unparameterised generic on the INCOMING side against a            *)
 (*     parameterised required type (list -> list[int]): accepted by the     *)
 (*     code; the docs only mention the required side.                       *)
+(*  S3 a TypeVar on the INCOMING side: accepted ("we can't know the         *)
+(*     concrete type without runtime info").                                *)
 (***************************************************************************)
 RECURSIVE Compat(_, _)
 Compat(o, i) ==
-  IF Same(o, i) THEN TRUE                                                    \* R1
+  IF o.k = "ann" THEN Compat(o.args[1], i)                                   \* R8
+  ELSE IF i.k = "ann" THEN Compat(o, i.args[1])                              \* R8
+  ELSE IF o.k \in {"tvar", "tvarb", "tvarc"} THEN TRUE                       \* S3
+  ELSE IF Same(o, i) THEN TRUE                                               \* R1
   ELSE IF i.k = "any" THEN TRUE                                              \* R2
+  ELSE IF i.k = "tvar" THEN TRUE                                             \* R9
+  ELSE IF i.k = "tvarc" THEN \E m \in 1..Arity(i) : Compat(o, i.args[m])     \* R9
+  ELSE IF i.k = "tvarb" THEN Compat(o, i.args[1])                            \* R9
   ELSE IF IsUnion(o) THEN \A m \in 1..Arity(o) : Compat(o.args[m], i)        \* R3
   ELSE IF IsUnion(i) THEN \E m \in 1..Arity(i) : Compat(o, i.args[m])        \* R4
   ELSE IF ~SubOrigin(o.k, i.k) THEN FALSE                                    \* R5 (and S1)
